@@ -265,6 +265,29 @@ def feature_of(value):
 
 
 # ---------------------------------------------------------------- world
+def _scramble(x, depth=0):
+    """In-place edits of a (nested) dictionary form, the way a client post-processing it would make them."""
+    if isinstance(x, dict):
+        for k in list(x):
+            v = x[k]
+            if isinstance(v, (dict, list)):
+                _scramble(v, depth + 1)
+            elif isinstance(v, str):
+                x[k] = v + "_edited"
+            elif isinstance(v, int) and not isinstance(v, bool):
+                x[k] = v + 1
+        x["client_note"] = depth
+    elif isinstance(x, list):
+        for i, v in enumerate(x):
+            if isinstance(v, (dict, list)):
+                _scramble(v, depth + 1)
+            elif isinstance(v, int) and not isinstance(v, bool):
+                x[i] = v + 1
+            elif isinstance(v, str):
+                x[i] = v + "_edited"
+        x.reverse()
+
+
 class LazyValue(dict):
     """A store value whose library object can be dropped and rebuilt from its spec: in "ephemeral" runs the client
     keeps only WHAT it saved, not the circuit objects (nor their custom gate definitions) themselves."""
@@ -307,7 +330,7 @@ class World:
         "overwrite", "overwrite-shorter", "overwrite-other-kind", "torn-file-load", "semantic-compared", "dict-roundtrip",
         "set-roundtrip", "custom-gate", "wrapper-depth>=3", "indexed-symbol", "sympy-named-symbol", "empty-circuit",
         "idle-qubits", "custom-gate-alt-definition", "numeric-literal-named-symbol", "external-write", "via-handle", "via-bytes", "via-pathlike", "float-param", "exp-wrapper", "pow-wrapper",
-        "positioned-handle-save",
+        "positioned-handle-save", "dict-edited-then-serialised-again",
     ]
 
     # ------------------------------------------------------------ generation
@@ -593,6 +616,24 @@ class World:
                 diff = kind.same(ctx, value, loaded)
             if diff is not None:
                 ctx.fail("wrong-data", f"{a['kind']}:{diff.split(':')[0]}", f"dict round trip changed the {a['kind']}: {diff}")
+            # the dictionary to_dict() returned belongs to the client: it post-processes it in place (renames, shifts
+            # indices, drops entries) - and then serialises the same circuit object again
+            ok0, d_first = call(S.to_dict, obj)
+            if ok0:
+                _scramble(d_first)
+                ok2, d_again = call(S.to_dict, obj)
+                ctx.check(ok2, "unexpected-reject", f"to_dict:second:{type(d_again).__name__}", lambda: f"second to_dict raised {d_again!r}")
+                ok3, loaded2 = call(lambda: (S.circuit_from_dict if a["kind"] == "circuit" else S.circuitset_from_dict)(json.loads(json.dumps(d_again))))
+                if not ok3:
+                    ctx.fail("unexpected-reject", f"from_dict:after-client-edit:{type(loaded2).__name__}{tag}",
+                             f"after the client edited the dictionary an earlier to_dict() call returned, a fresh dictionary form of the same "
+                             f"{a['kind']} cannot be deserialised: {type(loaded2).__name__}: {loaded2}")
+                with judge(ctx, "compare-exception"):
+                    diff2 = kind.same(ctx, value, loaded2)
+                if diff2 is not None:
+                    ctx.fail("wrong-data", f"{a['kind']}:after-client-edit:{diff2.split(':')[0]}",
+                             f"after the client edited the dictionary an earlier to_dict() call returned, the same {a['kind']} serialises differently: {diff2}")
+                ctx.probe("dict-edited-then-serialised-again")
             ctx.nontrivial = True
             ctx.log("dict_roundtrip", "ok", kind=a["kind"])
             return
